@@ -5,6 +5,7 @@ mod replay;
 mod ser_axcut;
 mod ser_core;
 mod ser_fun;
+mod ser_parsed;
 
 use printer::Print;
 use serde_json::{Value, json};
@@ -110,6 +111,9 @@ fn pipeline_case(case: &Value, dir: &str, emit: &[String]) -> Value {
             };
             'chain: {
                 let Some(parsed) = st.run("parse", || fun::parser::parse_module(&src).map_err(|e| format!("{e:?}"))) else { break 'chain };
+                if wants(emit, "parsed") {
+                    write(dir, &name, "parsed.json", &ser_parsed::prog_json(&parsed).to_string());
+                }
                 let Some(checked) = st.run("check", || parsed.check().map_err(|e| format!("{e:?}"))) else { break 'chain };
                 // C18: later stages are only promised for a valid entry point
                 main_valid = checked.defs.iter().any(|d| {
